@@ -93,6 +93,12 @@ impl SymbolTable {
         self.contexts.len() > 1
     }
 
+    /// Leaves every function context and every nested scope that is still open (after a failed compilation)
+    pub fn reset_to_global(&mut self) {
+        self.contexts.truncate(1);
+        self.contexts[0].symbols.truncate(1);
+    }
+
     /// Create a new context to define symbols in.
     /// This will always be a local context (as there is only one global context).
     pub fn new_context(&mut self) {
